@@ -168,7 +168,7 @@ def step (st : St) (ws : List String) : St × String :=
         if !rq.pendingSelect then (st, "bad-op")
         else if st.fallback then
           let (st', line) := commit st rid rq (selectFallback (statsOf st rq.key) rq.origTO classes)
-          (st', line ++ " drew=0 iters=0 margin=2 probs=- bgs=- tos=-")
+          (st', line ++ " drew=0 iters=0 margin=2 cmargin=2 probs=- bgs=- tos=-")
         else
           match selectFD st.env (statsOf st rq.key) rq.origTO classes now r with
           | none => (st, "panic")
@@ -178,7 +178,13 @@ def step (st : St) (ws : List String) : St × String :=
             let bgs := ",".intercalate (so.strategies.map (fun s => if s.background then "1" else "0"))
             let tos := ",".intercalate (so.strategies.map (fun s => s!"{s.fgTimeout}"))
             let dash (s : String) := if s = "" then "-" else s
-            (st', line ++ s!" drew={if so.drew then 1 else 0} iters={so.iterations} margin={showRat (pickMargin so.strategies r)} probs={dash probs} bgs={dash bgs} tos={dash tos}")
+            let cm : Rat := match st.env.calculator with
+              | .pageRank c =>
+                if useStrategies st.env (statsOf st rq.key) now then
+                  pageRankConvMargin c (statsOf st rq.key).classes classes rq.origTO
+                else 2
+              | .smallest => 2
+            (st', line ++ s!" drew={if so.drew then 1 else 0} iters={so.iterations} margin={showRat (pickMargin so.strategies r)} cmargin={showRat cm} probs={dash probs} bgs={dash bgs} tos={dash tos}")
       | none => (st, "bad-op")
     | _, _, _, _ => (st, "bad-op")
   | ["sabandon", rid] =>
